@@ -116,22 +116,29 @@ def run_batch(prop_id: str, seed: int, tier: str, indices: list[int], out_path: 
     runs, failures, harness = [], {}, []
     known = load_known()
     min_total = int(os.environ.get("VSIM_MIN_BUDGET", "90"))  # executions per batch spent on shrinking
+    hangs = 0
     for idx in indices:
+        if hangs >= 3:   # a hang is established; do not spend the batch's wall budget re-finding it
+            break
         rs = mix(seed, prop_id, idx)
         sc = prop.gen(rs, tier)
         sc.update({"prop": prop_id, "seed": rs, "index": idx, "hashseed": hashseed, "verif_seed": seed})
+        t_run = time.time()
         try:
             res = prop.execute(zy, sc)
         except Exception as e:  # harness trouble, never a verdict
             import traceback
             harness.append({"index": idx, "error": f"{type(e).__name__}: {e}", "tb": traceback.format_exc()[-1500:]})
             continue
-        run = {"index": idx, "H": res["H"], "C": res["C"], "stats": res["stats"], "sigs": [f["sig"] for f in res["failures"]]}
+        run = {"index": idx, "H": res["H"], "C": res["C"], "stats": res["stats"], "sigs": [f["sig"] for f in res["failures"]],
+               "wall": round(time.time() - t_run, 2)}
         if res.get("harness"):
             harness.append({"index": idx, "error": res["harness"]})
         runs.append(run)
         for f in res["failures"]:
             sig = f["sig"]
+            if " steps " in sig or " wall " in sig:
+                hangs += 1
             if sig in failures:
                 failures[sig]["count"] += 1
                 continue
